@@ -105,10 +105,18 @@ StepLine(st, raw, V) ==
   ELSE IF IsHeader(l) THEN [secs |-> CloseSec(st, V), open |-> TRUE, name |-> HeaderName(l), body |-> <<>>]
   ELSE IF IsComment(l) THEN st
   ELSE [st EXCEPT !.body = Append(@, l)]
-RECURSIVE Feed(_, _, _, _)
-Feed(st, lines, i, V) == IF i > Len(lines) THEN st ELSE Feed(StepLine(st, lines[i], V), lines, i + 1, V)
+\* the lines lo..hi fed to the reader one after the other.  (Split in halves, and the state after the first half is
+\* looked at before the second half is entered: TLC evaluates operator arguments on demand, and a plain left-to-right
+\* recursion would build a chain of suspended states as long as the file.)
+RECURSIVE Feed(_, _, _, _, _)
+Feed(st, lines, lo, hi, V) ==
+  IF lo > hi THEN st
+  ELSE IF lo = hi THEN StepLine(st, lines[lo], V)
+  ELSE LET mid == (lo + hi) \div 2
+           left == Feed(st, lines, lo, mid, V)
+       IN IF left.open \in BOOLEAN THEN Feed(left, lines, mid + 1, hi, V) ELSE left
 \* one file read on top of the sections known so far; the end of the file ends the open section
-ParseFile(secs, lines, V) == CloseSec(Feed(Reader(secs), lines, 1, V), V)
+ParseFile(secs, lines, V) == CloseSec(Feed(Reader(secs), lines, 1, Len(lines), V), V)
 \* files are read one after the other into the same set of sections
 RECURSIVE ParseFiles(_, _, _)
 ParseFiles(secs, files, V) == IF files = <<>> THEN secs ELSE ParseFiles(ParseFile(secs, Head(files), V), Tail(files), V)
